@@ -56,6 +56,14 @@ CLAIMS = {
    text="Static decision of the well-formedness preconditions that are visible in the generators: (R1) every #[diplomat::X] the AST gives meaning to is accepted by the macro (found opaque_mut, repaired by a fix: commit); (R2) for every syn node kind whose attributes the AST reads (computed from the resolved program), the macro strips that node's attributes (found impl blocks / traits / trait fns, repaired by a fix: commit); (R3) every arm that names a custom type records the include/forward for the same id through the formatter that names generated files, and C++ relative include paths are matched per path component; (R4) every emitted C/C++ parameter name passes through fmt_identifier and the table consulted in C (C++) mode covers the ISO C11 (C++17) keyword list.",
    note="That any generated file compiles is not decided (needs gcc/g++/node); spec/keywords.json holds the standard keyword lists.",
    technique="set agreement between AST readers and macro strippers over resolved types + pairing rules + keyword table coverage"),
+ "C14": dict(
+   text="Static effect analysis and container typing: (R1) every iteration over a hash container and every ambient read (time, env, pid, read_dir, fs reads, pointer formatting/casts) anywhere in diplomat_core + diplomat_tool - including the askama-generated render functions - must be in a triaged allow-list with an order-insensitivity reason (7 entries today); (R2) the containers whose iteration order reaches the output are BTreeMap/BTreeSet/Vec by type, every hash-typed struct field is in the lookup-only list, LookupId maps are keyed by AST node identity; (R3) every item-recording arm of ast::Module::from_syn is guarded by analyze_types, which is true only for the full attribute path diplomat::bridge, sub-modules and top-level modules are never forced, the config scan reads only top-level diplomat::config; (R4) duplicate file names are rejected.",
+   note="std's determinism is trusted; the check decides the causes of non-determinism / non-locality, not byte-identity of directories.",
+   technique="whole-program effect inventory (who-may-iterate/ambient-read) + type facts + guard rules"),
+ "C15": dict(
+   text="Static triage of crash sites selected by HIR shape: decision tables of every match / if-let / let-else on an HIR or backend-local enum in the backends and hir::methods give the set of real variants that select a panic!/unreachable!/unimplemented!/todo! arm (66 today); each is triaged as excluded-by-property, impossible-by-type, impossible-by-gate (cross-checked against the backend's attr_support flags and the gate), guarded or finding; an untriaged arm fails. Plus an inventory of unwrap/expect on Options derived from HIR data or parameters (36 keys), and a producer/consumer agreement rule for nanobind. Reading the tables found 8 genuine crashes (4 repaired by fix: commits, the rest recorded as known findings with their triggering bridge).",
+   note="Does not prove absence of all panics: index/slice panics, arithmetic overflow and identifier-value-dependent rejections are not decided; the triage reasons are reviewed by hand.",
+   technique="decision-table extraction of diverging arms + triage table + support-flag cross-check + unwrap provenance inventory"),
 }
 NOT_YET = "rule module not built yet in this round (see DESIGN.md section 4 for the planned static rules)"
 
